@@ -60,6 +60,7 @@ type Exec struct {
 	absRecv  *Val   // receiver whose state defines abstracted ghost globals (see Abstraction)
 	absType  string
 	nameSuffix string
+	pendingObjInv bool
 }
 
 type Frame struct {
@@ -465,7 +466,7 @@ func (x *Exec) execEffect(st *State, fr *Frame, ins ssa.Instruction) {
 
 func (x *Exec) nilCheck(st *State, p Val, pos token.Pos, what string) {
 	if p.A != nil {
-		if st.freshRef[p.A.Ref] || strings.HasPrefix(p.A.Ref, "(|sub:") || strings.HasPrefix(p.A.Ref, "(sub:") || strings.HasPrefix(p.A.Class, "g:") || strings.Contains(p.A.Ref, "gref:") {
+		if st.freshRef[p.A.Ref] || strings.HasPrefix(p.A.Ref, "(|sub:") || strings.HasPrefix(p.A.Ref, "(sub:") || strings.HasPrefix(p.A.Ref, "(|elemref:") || strings.HasPrefix(p.A.Class, "g:") || strings.Contains(p.A.Ref, "gref:") {
 			return
 		}
 		if p.S == "" {
@@ -688,6 +689,9 @@ func (x *Exec) evalUnOp(st *State, fr *Frame, in *ssa.UnOp) Val {
 	v := x.val(st, fr, in.X)
 	switch in.Op {
 	case token.MUL:
+		if g, ok := in.X.(*ssa.Global); ok && g.Name() == "init$guard" {
+			return Val{T: in.Type(), S: "false", Sort: "Bool"} // the initialiser is verified for its first (only effective) run
+		}
 		x.nilCheck(st, v, in.Pos(), "load")
 		a := st.addrOfPtr(v)
 		x.lockCheck(st, a, false, in.Pos())
@@ -982,6 +986,7 @@ func (x *Exec) evalSlice(st *State, fr *Frame, in *ssa.Slice) Val {
 		}
 		x.oblige(st, "safety:slice", x.site("slice", in.Pos()), "", x.safetyTags, sAnd("(<= 0 "+lo+")", "(<= "+lo+" "+hi+")", "(<= "+hi+" "+n+")"), in.Pos(), "slice bounds out of range")
 		s := st.define("sl", "Slice", "(mk-slice "+ba.Ref+" "+lo+" (- "+hi+" "+lo+") (- "+n+" "+lo+"))")
+		st.last["slice@"+s] = Val{S: ba.Ref, Sort: lo}
 		return Val{T: in.Type(), S: s, Sort: "Slice"}
 	}
 	x.reject("slice of %s", in.X.Type())
